@@ -286,8 +286,12 @@ class Judge:
             return 'float-compared-as-double'
         if D.involves(t, ('dateTime', 'time')) and self.alt(t, s, 'HOUR24_NOT_ROLLED').v == want:
             return 'hour24-not-rolled-over'
-        if D.involves(t, ('duration',)) and self.alt(t, s, 'DURATION_IGNORE_FRACTION').v == want:
-            return 'duration-fraction-ignored'
+        if D.involves(t, ('duration',)):
+            av = self.alt(t, s, 'DURATION_IGNORE_FRACTION')
+            # without the fraction the value may become INDETERMINATE against a bound (P1Y against P366DT0.38S): the library
+            # then folds that into a verdict (known finding KF-C09-14), which the deviated model reports as "skip"
+            if av.v == want or (av.v == SKIP and str(getattr(av, 'why', '')) == 'bounds:indeterminate-order'):
+                return 'duration-fraction-ignored'
         if any(ord(ch) > 0xFFFF for ch in s) and (deep_facet_kinds(t) & {'length', 'minLength', 'maxLength'}) and self.alt(t, s, 'STRING_LENGTH_UTF16').v == want:
             return 'length-in-utf16-units'
         if D.involves_variety(t, 'union') and 'enumeration' in deep_facet_kinds(t) and self.alt(t, s, 'UNION_ENUM_ANY_MEMBER').v == want:
@@ -347,7 +351,9 @@ class Judge:
                         lits = [fv for fn, fv in t.facets if fn == 'enumeration']
                         if code == '216' and D.involves(t, ('hexBinary', 'base64Binary')):
                             key = 'C09:type-rejected:%s:binary-enumeration-compared-lexically:216' % t.variety
-                        elif code in ('213', '214', '215') and any(ord(ch) > 0xFFFF for x in lits for ch in x):
+                        elif (code in ('213', '214', '215') or (code == '231' and D.involves_variety(t, 'union') and (deep_facet_kinds(t) & {'length', 'minLength', 'maxLength'}))) \
+                                and any(ord(ch) > 0xFFFF for x in lits for ch in x):
+                            # (231 = no member type of a union accepts the enumeration value: the member with the length facet counted UTF-16 units)
                             key = 'C09:type-rejected:%s:length-in-utf16-units:%s' % (t.variety, code)
                         else:
                             key = 'C09:type-rejected:%s:%s' % (tkey(t), l[2].replace('X:', ''))
